@@ -40,7 +40,7 @@ func (w *c16Worker) reset() error {
 	if w.c != nil {
 		w.c.Close()
 	}
-	c, err := rig.NewCluster(rig.ClusterOpts{IDs: c16IDs, ExtraPeers: map[uint64]string{4: rig.PeerName(4) + ":8004"}})
+	c, err := rig.NewCluster(rig.ClusterOpts{IDs: c16IDs, ExtraPeers: map[uint64]string{4: rig.PeerName(4) + ":8004", 0: rig.PeerName(0) + ":8000"}})
 	if err != nil {
 		return err
 	}
